@@ -1,7 +1,7 @@
 (* Agreement of the per-game, per-language markers of src/localization.rs (regenerated from the source on
    every run) with Model/Localize.v [infix].  Languages and localizers are numbered by their position in
    the enum declarations of the source; the names tie the positions to the model's constructors. *)
-From Coq Require Import List NArith ZArith Bool String.
+From Coq Require Import String List NArith ZArith Bool.
 From Mila Require Import Generated.SourceTables.
 From Mila Require Import Proofs.SrcAgreeLib Model.Localize.
 Import ListNotations.
